@@ -609,6 +609,46 @@ func runC19(c *Ctx) {
 			}
 		}
 	})
+	if !ctorOK {
+		// … or the constructor hands its fresh counter (buffer still nil) to a method that allocates the buffer
+		// exactly when it is nil (a Reset shared between construction and re-use)
+		allInstrs(ctor, func(in ssa.Instruction) {
+			call, ok := in.(*ssa.Call)
+			if !ok || len(call.Call.Args) == 0 {
+				return
+			}
+			cal := staticCallee(&call.Call)
+			if cal == nil || !m.methods[origin(cal)] {
+				return
+			}
+			if al, ok := call.Call.Args[0].(*ssa.Alloc); !ok || !al.Heap {
+				return
+			}
+			allInstrs(origin(cal), func(in2 ssa.Instruction) {
+				st, ok := in2.(*ssa.Store)
+				if !ok {
+					return
+				}
+				fa, ok := st.Addr.(*ssa.FieldAddr)
+				if !ok {
+					return
+				}
+				if _, f := fieldVarOf(fa); !sameField(f, m.bufF) {
+					return
+				}
+				if _, ok := st.Val.(*ssa.MakeMap); !ok {
+					return
+				}
+				for _, cm := range cmpsAt(st.Block()) {
+					if cm.Op == token.EQL && isNilConst(cm.Y) {
+						if _, f := loadedField(cm.X); f != nil && sameField(f, m.bufF) {
+							ctorOK = true
+						}
+					}
+				}
+			})
+		})
+	}
 	ruleCounterExtras(c, m, ctor)
 	ruleCounterPass(c, m)
 	rulePointerReceivers(c, "distinct", "Counter")
